@@ -76,7 +76,7 @@ Print Assumptions C14_candidate_shape_partial.
 (* while the value of an argument is being typed, no flag, argument or command name is offered *)
 Theorem C14_value_mode_offers_no_names_partial :
   forall cs arg po nm px i,
-    (exists c, In c cs /\ passes (max_depth cs) po c = true /\ only_value c = true) ->
+    (exists c, In c cs /\ passes (max_depth cs) po px c = true /\ only_value c = true) ->
     In i (fst (complete cs arg po nm px)) ->
     exists c, In c cs /\ only_value c = true /\ comp_item arg po px c = Some i.
 Proof. exact complete_value_mode. Qed.
@@ -85,11 +85,21 @@ Print Assumptions C14_value_mode_offers_no_names_partial.
 (* otherwise every hint of the deepest level that matches what was typed is offered *)
 Theorem C14_matching_hints_offered_partial :
   forall cs arg po nm px c i,
-    (forall c', In c' cs -> passes (max_depth cs) po c' = true -> only_value c' = false) ->
-    In c cs -> passes (max_depth cs) po c = true -> comp_item arg po px c = Some i ->
+    (forall c', In c' cs -> passes (max_depth cs) po px c' = true -> only_value c' = false) ->
+    In c cs -> passes (max_depth cs) po px c = true -> comp_item arg po px c = Some i ->
     In i (fst (complete cs arg po nm px)).
 Proof. exact complete_names_complete. Qed.
 Print Assumptions C14_matching_hints_offered_partial.
+
+(* while the value of `--name=val` / `-n=val` is being typed every candidate completes an argument's value:
+   no name of the level, no positional hint, no `--` (true after the fix: commit b840250 -- before it the
+   remaining hints were matched against the value part and written back with the prefix: `--file=--`) *)
+Theorem C14_prefix_only_values :
+  forall cs arg po nm px i,
+    px <> PxNA -> In i (fst (complete cs arg po nm px)) ->
+    exists c, In c cs /\ only_value c = true /\ comp_item arg po px c = Some i.
+Proof. exact complete_prefix_only_values. Qed.
+Print Assumptions C14_prefix_only_values.
 
 Example C14_example :
   arg_matches [45;45;118]%N (Some 118%N) (Some [118;101;114;98]%N) = Some [45;45;118;101;114;98]%N /\
